@@ -341,6 +341,20 @@ Proof.
   split; [reflexivity|]. split; [vm_compute; reflexivity|]. split; vm_compute; reflexivity.
 Qed.
 
+(* why op_len_u64 is there (the same bound as in C18): the wire field is a u64, so a payload of 2^64
+   bytes — which no Rust Vec can hold — would be announced as 0 bytes by the model's encoder *)
+Example C09_len_u64_needed :
+  header_format (mkHeader true false false false (OData Binary) None) two64
+  = [130; 127; 0; 0; 0; 0; 0; 0; 0; 0] /\
+  ~ len_field two64 127 [0; 0; 0; 0; 0; 0; 0; 0].
+Proof.
+  split; [vm_compute; reflexivity|].
+  unfold len_field, two64. intros [[H _]|[[[_ H] _]|[_ [_ [_ [_ H]]]]]].
+  - vm_compute in H. apply H. reflexivity.
+  - vm_compute in H. apply H. reflexivity.
+  - vm_compute in H. discriminate H.
+Qed.
+
 (* the three length forms at their boundaries (server; the client list stops at 2000 because the
    reference parser's unary index arithmetic is quadratic): Frame::format of an n-byte binary frame
    is read back by the reference parser as exactly that frame *)
